@@ -227,4 +227,88 @@ theorem bystander_unchanged (h : H) (op : Op) (hs : Sep h) :
       | none => rfl
       | some b => rfl
 
+theorem store_owner_old (h : H) (i p : Nat) (a b : Nat) (hb : b < h.next) :
+    (store true h i p a).owner b = h.owner b := by
+  simp only [store, if_true]
+  exact alloc_owner_old h _ _ b hb
+
+theorem copyStep_owner_old (h0 : H) (i j : Nat) (hh : H) (p : Nat) :
+    ∀ a, a < hh.next → (copyStep h0 i j hh p).owner a = hh.owner a := by
+  unfold copyStep
+  cases h0.slot i p with
+  | none => intro _ _; rfl
+  | some a => intro b hb; exact alloc_owner_old hh (.inst j) (content h0 a) b hb
+
+theorem copy_fold_owner_old (h0 : H) (i j : Nat) : ∀ (ps : List Nat) (hh : H),
+    ∀ a, a < hh.next → (ps.foldl (copyStep h0 i j) hh).owner a = hh.owner a := by
+  intro ps
+  induction ps with
+  | nil => intro hh a _; rfl
+  | cons p ps ih =>
+    intro hh a ha
+    simp only [List.foldl_cons]
+    rw [ih _ a (Nat.lt_of_lt_of_le ha (copyStep_old h0 i j hh p).1)]
+    exact copyStep_owner_old h0 i j hh p a ha
+
+/-- no operation frees an address or changes who owns an allocated cell -/
+theorem step_old (h : H) (op : Op) :
+    h.next ≤ (step true h op).next ∧ ∀ a, a < h.next → (step true h op).owner a = h.owner a := by
+  cases op with
+  | callerNew c => exact ⟨by simp [step, alloc], fun a ha => alloc_owner_old h _ c a ha⟩
+  | clsNew c => exact ⟨by simp [step, alloc], fun a ha => alloc_owner_old h _ c a ha⟩
+  | callerWrite t k v =>
+    simp only [step]
+    split <;> exact ⟨Nat.le_refl _, fun _ _ => rfl⟩
+  | construct i p arg =>
+    have hfresh : h.next ≤ (store true (alloc h (.inst i) []).1 i p (alloc h (.inst i) []).2).next ∧
+        ∀ a, a < h.next → (store true (alloc h (.inst i) []).1 i p (alloc h (.inst i) []).2).owner a = h.owner a := by
+      refine ⟨by rw [store_next, alloc_next]; omega, fun a ha => ?_⟩
+      rw [store_owner_old _ i p _ a (by rw [alloc_next]; omega)]
+      exact alloc_owner_old h _ _ a ha
+    simp only [step]
+    cases arg with
+    | none => exact hfresh
+    | some b =>
+      simp only
+      split
+      · exact hfresh
+      · exact ⟨by rw [store_next]; omega, fun a ha => store_owner_old h i p b a ha⟩
+  | update i p arg =>
+    simp only [step]
+    cases h.slot i p with
+    | none => exact ⟨by rw [store_next]; omega, fun a ha => store_owner_old h i p arg a ha⟩
+    | some cur =>
+      simp only
+      split
+      · exact ⟨Nat.le_refl _, fun _ _ => rfl⟩
+      · split
+        · exact ⟨by rw [store_next]; omega, fun a ha => store_owner_old h i p arg a ha⟩
+        · exact ⟨Nat.le_refl _, fun _ _ => rfl⟩
+  | copy i j ps =>
+    exact ⟨(copy_fold_old h i j ps h).1, copy_fold_owner_old h i j ps h⟩
+  | instantiate i p d =>
+    simp only [step]
+    cases h.slot i p with
+    | none => exact ⟨Nat.le_refl _, fun _ _ => rfl⟩
+    | some b => exact ⟨by simp [alloc], fun a ha => alloc_owner_old h _ _ a ha⟩
+
+/-- **Whole-program bystander theorem.** A cell that no instance owns — a class-level default dict
+    or a dict the caller built — holds the same content after any program that contains no caller
+    write to that very cell. -/
+theorem unowned_cells_never_change (ops : List Op) : ∀ (h : H), Sep h → ∀ a, a < h.next →
+    (∀ i, h.owner a ≠ .inst i) → (∀ op ∈ ops, ∀ k v, op ≠ .callerWrite a k v) →
+    (run true h ops).cells a = h.cells a := by
+  induction ops with
+  | nil => intro h _ a _ _ _; rfl
+  | cons op ops ih =>
+    intro h hs a ha hown hnw
+    obtain ⟨hn, ho⟩ := step_old h op
+    have h1 : (step true h op).cells a = h.cells a :=
+      (bystander_unchanged h op hs).1 a ha (fun i _ => hown i)
+        (fun t k v he hat => hnw op (List.mem_cons_self ..) k v (by rw [he, hat]))
+    have h2 := ih (step true h op) (sep_step h op hs) a (Nat.lt_of_lt_of_le ha hn)
+      (fun i => by rw [ho a ha]; exact hown i) (fun o hmem => hnw o (List.mem_cons_of_mem _ hmem))
+    simp only [run, List.foldl_cons] at h2 ⊢
+    rw [h2, h1]
+
 end Hmf.Heap
